@@ -302,8 +302,66 @@ def language_verdict(rep, rule, res, subject, oracles, pair, info, gname):
             raise core.CheckBroken("verdicts against equivalent oracles differ")
     rep.samples.append({"rule": rule, "instance": "regex-level (before the Rust code's own rejections) shortest witnesses", "detail": {k: cmpd.get(("subject_regex", oracles[0]), {}).get(k) for k in ("a_not_b", "b_not_a", "product_pairs")}})
 
+def closure_pred_name(F, fn, op):
+    """name of the char/u8 predicate a closure operand applies to its parameter (e.g. 'is_ascii_digit'), else None"""
+    for o in mir.trace_op(fn, op):
+        if o.kind == "agg":
+            rv = mir.rv_at(o.fn, *o.data)
+            if rv[1].get("k") == "closure":
+                c = F.fn(rv[1]["path"])
+                if c is None: return None
+                rets = mir.trace_place(c, [0], transparent=())
+                if len(rets) == 1 and rets[0].kind == "call":
+                    t = c.blocks[rets[0].data]["t"]
+                    os = mir.trace_op(c, t[2][0], transparent=()) if t[2] else []
+                    if len(os) == 1 and os[0].kind == "param" and os[0].data == 2:
+                        return (mir.callee(t) or "").rsplit("::", 1)[-1]
+    return None
+
+def const_of_expr(F, x):
+    if x[0] == "const": return x[1]
+    if x[0] == "promoted":
+        v = mir.promoted_value(F, {"k": "promoted", "of": x[1], "idx": x[2]})
+        if v is not None and v[0] == "const": return v[1]
+    return None
+
+def path_facts(F, fn, path, depth=0):
+    """alternatives (list of lists) of atomic call facts known on `path`: (method, consts, truth, closure_pred).
+    A call of a local bool helper is replaced by the facts of each of its paths returning that truth value."""
+    sp = mir.SymPath(fn, path)
+    alts = [[]]
+    for d, (rel, vals), b in sp.conds:
+        if d[0] != "call": continue
+        t = fn.blocks[d[3]]["t"] if len(d) > 3 and isinstance(d[3], int) else None
+        truth = not ((rel == "eq" and 0 in vals) or (rel == "ne" and 0 not in vals))
+        name = str(d[1]).rsplit("::", 1)[-1]
+        g = F.fn(str(d[1]))
+        if g is not None and g.d.get("ret") == "bool" and depth < 3 and not mir.has_loop(g):
+            sub = []
+            for p2 in mir.enum_paths(g, limit=2000):
+                if g.blocks[p2[-1]]["t"][0] != "ret": continue
+                r = mir.SymPath(g, p2).ret()
+                neg = False
+                while r[0] == "un" and r[1] == "Not": r = r[2]; neg = not neg
+                if r[0] == "const":
+                    if (bool(r[1]) != neg) == truth: sub += path_facts(F, g, p2, depth + 1)
+                elif r[0] == "call":
+                    want = truth != neg
+                    extra = (str(r[1]).rsplit("::", 1)[-1], tuple(c for c in (const_of_expr(F, x) for x in r[2]) if c is not None), want, None)
+                    for a in path_facts(F, g, p2, depth + 1): sub.append(a + [extra])
+                else:
+                    sub.append([("unknown-helper-return", (), truth, None)])
+            alts = [a + s2 for a in alts for s2 in (sub or [[("unknown-helper", (), truth, None)]])]
+            continue
+        consts = tuple(c for c in (const_of_expr(F, x) for x in d[2]) if c is not None)
+        pred = None
+        if t is not None and name in ("all", "any") and len(t[2]) > 1: pred = closure_pred_name(F, fn, t[2][1])
+        alts = [a + [(name, consts, truth, pred)] for a in alts]
+    return alts
+
 def numeric_classification(F, rep, rule, module, enums, floor):
-    """Every construction of <enum>::UInt from parsed text is guarded by all(chars, is_ascii_digit)."""
+    """Every construction of <enum>::UInt from parsed text happens only when the text is all ASCII digits and canonical
+    (equal to "0" or not starting with '0'), so that printing the number gives the text back."""
     n = 0
     sites = []
     for p, g in F.fns.items():
@@ -313,35 +371,31 @@ def numeric_classification(F, rep, rule, module, enums, floor):
             kd = s[2][1]
             if kd.get("k") != "adt" or kd.get("variant") not in ("UInt",) or kd["adt"].rsplit("::", 1)[-1] not in enums: continue
             sites.append((g, bi, kd["adt"].rsplit("::", 1)[-1]))
-        # the variant constructor used as a function value: parse().map(Enum::UInt)
         for bi, t in g.calls():
             for a in t[2]:
-                if a[0] == "c" and a[1].get("k") == "fn" and a[1]["path"].rsplit("::", 1)[-1] == "UInt" and a[1]["path"].rsplit("::", 2)[-2] in enums:
-                    sites.append((g, bi, a[1]["path"].rsplit("::", 2)[-2]))
+                if a[0] == "c" and a[1].get("k") == "fn" and a[1]["path"].rsplit("::", 1)[-1] in ("UInt", "new_uint") and any(e in a[1]["path"] for e in enums):
+                    sites.append((g, bi, [e for e in enums if e in a[1]["path"]][0]))
     for g, bi, ename in sites:
-        if True:
-            kd = {"adt": ename}
-            n += 1
-            site = "%s bb%d line %s" % (g.where(), bi, g.blocks[bi]["line"])
-            ok = False; why = []
-            for desc, pol, d in mir.guards_of(g, bi):
-                if desc[0] == "call" and desc[1] and "Iterator::all" in desc[1] and pol is True:
-                    t = desc[2]
-                    # closure argument
-                    for o in mir.trace_op(g, t[2][1]):
-                        if o.kind == "agg":
-                            rv = mir.rv_at(g, *o.data)
-                            if rv[1].get("k") == "closure":
-                                c = F.fn(rv[1]["path"])
-                                if c and closure_is_ascii_digit(c):
-                                    ok = True
-                                else:
-                                    why.append("predicate closure %s is not is_ascii_digit" % rv[1]["path"])
-            key = "%s:%s#%d" % (g.path.replace("crate::", ""), kd["adt"].rsplit("::", 1)[-1], n)
-            if ok:
-                rep.ok(rule, "numeric classification guarded by all(is_ascii_digit)", sample=site, nontrivial_key=key)
-            else:
-                rep.bad(rule, "non-ascii-classification:" + key, "a numeric identifier is built without an ASCII-digit guard on every character (%s)" % (why or "no all(..) guard"), site)
+        n += 1
+        site = "%s bb%d line %s" % (g.where(), bi, g.blocks[bi]["line"])
+        key = "%s:%s#%d" % (g.path.replace("crate::", ""), ename, n)
+        try:
+            paths = [p for p in mir.enum_paths(g, limit=5000, stop_blocks=[bi]) if p[-1] == bi]
+        except mir.TooManyPaths:
+            rep.bad(rule, "unrecognised-shape:" + key, "too many paths", site); continue
+        bad = None; nalt = 0
+        for p in paths:
+            for facts_ in path_facts(F, g, p):
+                nalt += 1
+                digits = any(m in ("all",) and tr and pr == "is_ascii_digit" for m, c, tr, pr in facts_)
+                canonical = any((m == "eq" and "0" in c and tr) or (m == "starts_with" and "0" in c and not tr) for m, c, tr, pr in facts_)
+                if ename == "LocalSegment": canonical = True      # PEP 440 local numbers are normalised, not reproduced
+                if not digits: bad = "not guarded by all(is_ascii_digit): %s" % [(m, tr, pr) for m, c, tr, pr in facts_]
+                elif not canonical: bad = "digit strings with leading zeros are classified as numbers (printing would drop the zeros): %s" % [(m, c, tr) for m, c, tr, pr in facts_]
+        if bad is None and nalt:
+            rep.ok(rule, "numeric classification only for canonical ASCII digit strings (%d path alternatives)" % nalt, sample=site, nontrivial_key=key)
+        else:
+            rep.bad(rule, "numeric-classification:" + key.rsplit("#", 1)[0], "a numeric identifier is built from text that is %s" % (bad or "unreachable?"), site)
     rep.floor(rule, "numeric identifier constructions in the parser", n, floor)
 
 def closure_uses_input(c):
@@ -443,6 +497,49 @@ def check_parity(F, rep, rule, tyname, anchor):
             rep.ok(rule, "check parses args.version unmodified with %s::from_str" % tyname, sample=repr(os), nontrivial_key="chk%d" % bi)
         else:
             rep.bad(rule, "check-input-modified:%s" % tyname, "check does not hand the unmodified version argument to the parser: %r" % os, site)
+    # every Err exit of run_check_command is decided by a parser result (or is the unknown-format arm)
+    from_str_blocks = {bi for bi, t in f.calls() if (mir.callee(t) or "").endswith(">::from_str")}
+    def from_parser(op, depth=0):
+        if depth > 6: return False
+        for o in mir.trace_op(f, op, transparent=()):
+            if o.kind == "call":
+                if o.data in from_str_blocks: return True
+                t2 = f.blocks[o.data]["t"]
+                if t2[2] and from_parser(t2[2][0], depth + 1): return True
+        return False
+    exits = []
+    for bi, si, st in f.stmts():
+        if st[0] == "=" and st[1] == [0] and st[2][0] == "agg" and st[2][1].get("variant") == "Err": exits.append(bi)
+    for bi, t in f.calls():
+        if "from_residual" in (mir.callee(t) or "") and t[3] == [0]: exits.append(bi)
+    for bi in exits:
+        gs = mir.guards_of(f, bi)
+        dep = False; only_format = bool(gs)
+        for desc, pol, d in gs:
+            if desc[0] == "discr":
+                if from_parser(["cp", desc[1]]): dep = True
+                elif not any("format" in o.path_str() for o in mir.trace_place(f, desc[1])): only_format = False
+            elif desc[0] == "call":
+                cc = desc[1] or ""
+                if (cc.endswith("::is_err") or cc.endswith("::is_ok")) and from_parser(desc[2][2][0]): dep = True
+                elif "PartialEq" in cc or cc.endswith("::eq"):
+                    if not any("format" in o.path_str() for a in desc[2][2] for o in mir.trace_op(f, a)): only_format = False
+                else: only_format = False
+            else: only_format = False
+        site = "%s bb%d line %s" % (f.where(), bi, f.blocks[bi]["line"])
+        if dep: rep.ok(rule, "Err exit decided by a parser result", sample=site, nontrivial_key="err%d" % bi)
+        elif only_format: rep.ok(rule, "Err exit of the format dispatch (unknown format)", sample=site, nontrivial_key="fmt%d" % bi)
+        else: rep.bad(rule, "check-own-verdict:%s" % tyname, "run_check_command rejects on a condition that does not come from the format parser (guards: %s): check and the parser can disagree" % [str(g[0][:2])[:60] for g in gs], site)
+    # the 'normalized' note is decided by exact equality of the input with the printed form
+    fv = [x for x in F.find("cli::check::format_validation") if x.kind == "fn"]
+    if fv:
+        v = fv[0]; rep.fn_seen(v)
+        cmpc = [(bi, t) for bi, t in v.calls() if len(t[2]) == 2 and any(o.kind == "param" and o.data == 1 for o in mir.trace_op(v, t[2][0])) and any(o.kind == "call" and "to_string" in (mir.callee(v.blocks[o.data]["t"]) or "") for o in mir.trace_op(v, t[2][1]))]
+        for bi, t in cmpc:
+            cc = mir.callee(t) or ""
+            if "PartialEq" in cc and cc.endswith("::eq"): rep.ok(rule, "normal-form note decided by exact equality with the printed form", nontrivial_key="fv%d" % bi)
+            else: rep.bad(rule, "check-normal-form-compare", "check compares the input with the printed normal form using %s instead of exact equality: a non-normal spelling can be reported as normal" % cc, "%s bb%d" % (v.where(), bi))
+        if not cmpc: rep.bad(rule, "unrecognised-shape:format_validation", "format_validation does not compare the input with parsed.to_string()", v.where())
     # no other parser for this format: any other local callee whose name mentions the type's module and 'parse'
     for bi, t in f.calls():
         c = mir.callee(t) or ""
